@@ -65,6 +65,46 @@ def exempt_family():
     return out
 
 
+def toggle_family():
+    """exhaustive: the command that FAILS is the one that switched the option on (or off) while it ran in the current
+    shell — a function, eval, a brace group — in exempt and non-exempt positions.  bash decides with the option value in
+    force when the command has finished (found missing by seed C03-3)."""
+    L = lambda i, c: ("L", i, [c])
+    endings = {
+        "return3": lambda: [("R", 3)],
+        "exempt_andor_fails": lambda: [("A", L(1, 1), [(True, L(2, 0))])],          # `false && true` → 1, exempt inside
+        "if_no_branch_then_return": lambda: [("I", L(1, 1), L(2, 0)), ("R", 2)],
+        "bang_fails": lambda: [("N", L(1, 0))],
+        "last_fails": lambda: [L(1, 0), L(2, 4)],                                   # would exit inside once `-e` is on
+    }
+    toggles = {"e_on": [("O", "e", True)], "e_on_pipefail": [("O", "p", True), ("O", "e", True)],
+               "e_off": [("O", "e", False)], "e_on_late": None}
+    carriers = ("func", "eval", "group", "func_in_eval")
+    positions = {"plain": lambda c: c, "if_cond": lambda c: ("I", c, L(20, 0)), "and_nonfinal": lambda c: ("A", c, [(True, L(27, 0))]),
+                 "or_final": lambda c: ("A", L(30, 1), [(False, c)]), "loop": lambda c: ("F", 2, c), "subshell": lambda c: ("Su", ("S", [("P",), c]))}
+    out = []
+    for en, ef in endings.items():
+        for tn, tg in toggles.items():
+            for ca in carriers:
+                if en.startswith("return") or en.endswith("return"):
+                    if ca in ("eval", "group"):
+                        continue          # `return` needs a function
+                for pn, pf in positions.items():
+                    body = (list(tg) if tg is not None else [L(9, 0), ("O", "e", True)]) + ef()
+                    pre = [("O", "e", True)] if tn == "e_off" else []
+                    if ca == "func":
+                        funcs, cmd = [("S", body)], ("K", 0)
+                    elif ca == "func_in_eval":
+                        funcs, cmd = [("S", body)], ("Ev", ("K", 0))
+                    elif ca == "eval":
+                        funcs, cmd = [], ("Ev", ("S", body))
+                    else:
+                        funcs, cmd = [], ("Gr", ("S", body))
+                    main = ("S", pre + [L(4, 0), pf(cmd), ("P",), L(5, 0), L(6, 7), L(8, 0)])
+                    out.append((funcs, main))
+    return out
+
+
 def run(ctx):
     ok, out = lib.cargo_build([])
     if not ok:
@@ -83,6 +123,8 @@ def run(ctx):
                     cases.append(("corpus", c02._untuple(rec["prog"]), False))
     for p in exempt_family():
         cases.append(("exh", p, False))
+    for p in toggle_family():
+        cases.append(("exh-toggle", p, False))
     rng = ctx.rng
     n = ctx.size(1200, 25000)
     for i in range(n):
